@@ -188,7 +188,6 @@ func execXk(netsS, rootS, opsS string, quiet bool) string {
 	return "ok " + out
 }
 
-
 // xk.sweep <seedhex> <net> <from> <count>: for each normal index i the compressed public key of
 // Neuter(Child_i(m)) and of Child_i(Neuter(m)) — a compact way to visit hundreds of derived keys (public
 // keys whose X has leading zero bytes, short scalars, ...) on both derivation routes.
